@@ -1,14 +1,22 @@
 /-
   C01 — the default namespace.
 
-  CSS: under a default namespace EVERY compound selector without a type selector is restricted to
-  that namespace (except the subject compound directly inside `:is/:where/:not`):
-  `Css.satCss` = `sat ∘ explicitNs`.
-  soupsieve: only the last compound of a top-level complex selector gets the implied `*`:
-  `Css.satTop` = `sat ∘ withImplied` (proved equal to the matcher in `Properties/C01Sat`).
+  CSS (`Css.satCss`, reading (a)-(c) of `Spec/CssNs.lean`): under a default namespace every
+  compound selector without a type selector is restricted to that namespace, except the subject
+  compound directly inside `:is/:where/:not` (and, when `hasExempt`, inside `:has`).
+  soupsieve after repair ccd8955 (`Css.satTop` = `sat ∘ withImplied`, proved equal to the matcher
+  in `Properties/C01Sat`): every compound of a top-level complex selector gets the implied `*`;
+  inside pseudo-class arguments none does.
 
-  Theorem: the two agree whenever no default namespace is declared (`c.nsGet [] = none`, i.e. the
-  `namespaces` mapping has no `''` key).  Counter-example with a default namespace: `.a > .b`.
+  Theorems (for both readings of `:has`):
+    * `satCss_eq_satTop` : the two agree when no default namespace is declared
+      (`c.nsGet [] = none`: the `namespaces` mapping has no `''` key), OR — whatever the
+      namespaces — when `x.nsAgree`: every compound inside a pseudo-class argument that CSS
+      subjects to the default namespace carries an explicit type / universal selector.  In
+      particular every selector without `:is/:not/:has` arguments (`.a > .b` …) now agrees.
+    * what remains different, with a default namespace, by `decide`: `:is(.a > .b)` (the
+      non-subject compound `.a` of an argument), and — reading `hasExempt = false` only —
+      `r:has(> .a)`.
 -/
 import SoupVerif.Spec.CssNs
 import SoupVerif.Properties.C01Sat
@@ -25,13 +33,15 @@ theorem satType_implied (c : Ctx) (hns : c.nsGet [] = none) (e : Elem) :
 
 set_option linter.unusedSectionVars false
 
+/-! ### No default namespace: every placement of the implied `*` is immaterial -/
+
 section
-variable (c : Ctx) (hns : c.nsGet [] = none)
+variable (h : Bool) (c : Ctx) (hns : c.nsGet [] = none)
 include hns
 
 mutual
 theorem simple_ns : ∀ (s : Simple) (l : Loc) (e : Elem),
-    satSimple c l e s.explicitNs = satSimple c l e s
+    satSimple c l e (s.explicitNs h) = satSimple c l e s
   | .neg L, l, e => by simp only [Simple.explicitNs, satSimple, subjects_ns L l]
   | .is L, l, e => by simp only [Simple.explicitNs, satSimple, subjects_ns L l]
   | .has L, l, e => by simp only [Simple.explicitNs, satSimple, rels_ns L l]
@@ -47,12 +57,12 @@ theorem simple_ns : ∀ (s : Simple) (l : Loc) (e : Elem),
   | .lastOfType, _, _ => rfl
   | .onlyOfType, _, _ => rfl
 theorem parts_ns : ∀ (ps : List Simple) (l : Loc) (e : Elem),
-    satParts c l e (explicitParts ps) = satParts c l e ps
+    satParts c l e (explicitParts h ps) = satParts c l e ps
   | [], _, _ => rfl
   | s :: rest, l, e => by
     simp only [explicitParts, satParts, simple_ns s l e, parts_ns rest l e]
 theorem compound_ns : ∀ (cp : Compound) (b : Bool) (l : Loc),
-    satCompound c l (cp.explicitNs b) = satCompound c l cp
+    satCompound c l (cp.explicitNs h b) = satCompound c l cp
   | .mk tag parts, b, l => by
     simp only [Compound.explicitNs, satCompound]
     cases hf : l.focus with
@@ -69,7 +79,7 @@ theorem compound_ns : ∀ (cp : Compound) (b : Bool) (l : Loc),
           show satType c e (some ⟨.default, none⟩) = satType c e none
           rw [satType_implied c hns e]; rfl
 theorem complex_ns : ∀ (x : Complex) (b : Bool) (l : Loc),
-    sat c l (x.explicitNs b) = sat c l x
+    sat c l (x.explicitNs h b) = sat c l x
   | .one cp, b, l => by simp only [Complex.explicitNs, sat, compound_ns cp b l]
   | .comb L k R, b, l => by
     simp only [Complex.explicitNs, sat, compound_ns R b l]
@@ -77,84 +87,160 @@ theorem complex_ns : ∀ (x : Complex) (b : Bool) (l : Loc),
     funext t
     exact complex_ns L true t
 theorem subjects_ns : ∀ (L : List Complex) (l : Loc),
-    satAny c l (explicitSubjects L) = satAny c l L
+    satAny c l (explicitSubjects h L) = satAny c l L
   | [], _ => rfl
   | x :: rest, l => by
     simp only [explicitSubjects, satAny, complex_ns x false l, subjects_ns rest l]
 theorem rels_ns : ∀ (L : List RelSel) (l : Loc),
-    satHasAny c l (explicitRels L) = satHasAny c l L
+    satHasAny c l (explicitRels h L) = satHasAny c l L
   | [], _ => rfl
   | r :: rest, l => by
     simp only [explicitRels, satHasAny, rel_ns r l, rels_ns rest l]
-theorem rel_ns : ∀ (r : RelSel) (l : Loc), satRel c l r.explicitNs = satRel c l r
+theorem rel_ns : ∀ (r : RelSel) (l : Loc), satRel c l (r.explicitNs h) = satRel c l r
   | .mk k x, l => by
     simp only [RelSel.explicitNs, satRel]
     congr 1
     funext t
-    exact fwd_ns x true (fun _ => true) t
+    exact fwd_ns x (!h) (fun _ => true) t
 theorem fwd_ns : ∀ (x : Complex) (b : Bool) (done : Loc → Bool) (t : Loc),
-    satFwd c (x.explicitNs b) done t = satFwd c x done t
+    satFwd c (x.explicitNs h b) done t = satFwd c x done t
   | .one cp, b, done, t => by simp only [Complex.explicitNs, satFwd, compound_ns cp b t]
   | .comb L k R, b, done, t => by
     simp only [Complex.explicitNs, satFwd]
-    have : (fun u => (rightOf k u).any (fun v => satCompound c v (R.explicitNs b) && done v)) =
+    have : (fun u => (rightOf k u).any (fun v => satCompound c v (R.explicitNs h b) && done v)) =
         (fun u => (rightOf k u).any (fun v => satCompound c v R && done v)) := by
       funext u; congr 1; funext v; rw [compound_ns R b v]
     rw [this]
     exact fwd_ns L true _ t
 end
 
-/-- **Without a default namespace, soupsieve's placement of the implied `*` is immaterial:**
-    the meaning CSS gives (`satCss`: every compound) equals the one soupsieve implements
-    (`satTop`: last compound only), and both equal the bare meaning. -/
-theorem satCss_eq_satTop (x : Complex) (l : Loc) : satCss c l x = satTop c l x := by
-  unfold satCss satTop
-  rw [complex_ns c hns x true l]
-  cases x with
-  | one cp =>
-    cases cp with
-    | mk tag parts =>
-      cases tag with
-      | some t => rfl
-      | none =>
-        simp only [Complex.withImplied, Compound.withImplied, sat, satCompound]
-        cases l.focus with
-        | str k s => rfl
-        | elem e kids =>
-          simp only [satType_implied c hns]
-          simp [satType]
-  | comb L k R =>
-    cases R with
-    | mk tag parts =>
-      cases tag with
-      | some t => rfl
-      | none =>
-        simp only [Complex.withImplied, Compound.withImplied, sat, satCompound]
-        cases l.focus with
-        | str k s => rfl
-        | elem e kids =>
-          simp only [satType_implied c hns]
-          simp [satType]
+omit h in
+theorem compound_withImplied_ns (cp : Compound) (l : Loc) :
+    satCompound c l cp.withImplied = satCompound c l cp := by
+  cases cp with
+  | mk tag parts =>
+    cases tag with
+    | some t => rfl
+    | none =>
+      simp only [Compound.withImplied, satCompound]
+      cases l.focus with
+      | str k s => rfl
+      | elem e kids =>
+        simp only [satType_implied c hns]
+        simp [satType]
+
+omit h in
+theorem withImplied_ns : ∀ (x : Complex) (l : Loc), sat c l x.withImplied = sat c l x
+  | .one cp, l => by simp only [Complex.withImplied, sat, compound_withImplied_ns c hns cp l]
+  | .comb L k R, l => by
+    simp only [Complex.withImplied, sat, compound_withImplied_ns c hns R l]
+    congr 2
+    funext t
+    exact withImplied_ns L t
 
 end
 
-/-- `select` against the CSS meaning, when no default namespace is declared. -/
-theorem select_exact_css (c : Ctx) (hifr : c.iframeRestrict = false) (hns : c.nsGet [] = none)
-    (L : List Complex) (hwf : ∀ x ∈ L, x.wf = true)
+/-! ### Any namespaces: when the pseudo-class arguments are explicit, the selectors coincide -/
+
+section
+variable (h : Bool)
+
+mutual
+theorem simple_id : ∀ (s : Simple), s.nsAgree h = true → s.explicitNs h = s
+  | .neg L, ha => by simp only [Simple.explicitNs, subjects_id L ha]
+  | .is L, ha => by simp only [Simple.explicitNs, subjects_id L ha]
+  | .has L, ha => by simp only [Simple.explicitNs, rels_id L ha]
+  | .id _, _ => rfl
+  | .cls _, _ => rfl
+  | .attr _ _ _, _ => rfl
+  | .root, _ => rfl
+  | .empty, _ => rfl
+  | .firstChild, _ => rfl
+  | .lastChild, _ => rfl
+  | .onlyChild, _ => rfl
+  | .firstOfType, _ => rfl
+  | .lastOfType, _ => rfl
+  | .onlyOfType, _ => rfl
+theorem parts_id : ∀ (ps : List Simple), agreeParts h ps = true → explicitParts h ps = ps
+  | [], _ => rfl
+  | s :: rest, ha => by
+    simp only [agreeParts, Bool.and_eq_true] at ha
+    simp only [explicitParts, simple_id s ha.1, parts_id rest ha.2]
+theorem compound_id : ∀ (cp : Compound) (b : Bool), cp.nsAgreeIn h b = true → cp.explicitNs h b = cp
+  | .mk tag parts, b, ha => by
+    simp only [Compound.nsAgreeIn, Bool.and_eq_true] at ha
+    simp only [Compound.explicitNs, parts_id parts ha.2]
+    cases tag with
+    | some t => rfl
+    | none =>
+      cases b with
+      | false => rfl
+      | true => simp at ha
+theorem complex_id : ∀ (x : Complex) (b : Bool), x.nsAgreeIn h b = true → x.explicitNs h b = x
+  | .one cp, b, ha => by simp only [Complex.explicitNs, compound_id cp b ha]
+  | .comb L k R, b, ha => by
+    simp only [Complex.nsAgreeIn, Bool.and_eq_true] at ha
+    simp only [Complex.explicitNs, complex_id L true ha.1, compound_id R b ha.2]
+theorem subjects_id : ∀ (L : List Complex), agreeSubjects h L = true → explicitSubjects h L = L
+  | [], _ => rfl
+  | x :: rest, ha => by
+    simp only [agreeSubjects, Bool.and_eq_true] at ha
+    simp only [explicitSubjects, complex_id x false ha.1, subjects_id rest ha.2]
+theorem rels_id : ∀ (L : List RelSel), agreeRels h L = true → explicitRels h L = L
+  | [], _ => rfl
+  | r :: rest, ha => by
+    simp only [agreeRels, Bool.and_eq_true] at ha
+    simp only [explicitRels, rel_id r ha.1, rels_id rest ha.2]
+theorem rel_id : ∀ (r : RelSel), r.nsAgree h = true → r.explicitNs h = r
+  | .mk k x, ha => by simp only [RelSel.explicitNs, complex_id x (!h) ha]
+end
+
+theorem compound_top (cp : Compound) (ha : cp.nsAgreeTop h = true) :
+    cp.explicitNs h true = cp.withImplied := by
+  cases cp with
+  | mk tag parts =>
+    simp only [Compound.explicitNs, parts_id h parts ha]
+    cases tag <;> rfl
+
+/-- Under `nsAgree` the CSS placement of the implied `*` and the parser's are the same selector. -/
+theorem complex_top : ∀ (x : Complex), x.nsAgree h = true → x.explicitNs h true = x.withImplied
+  | .one cp, ha => by simp only [Complex.explicitNs, Complex.withImplied, compound_top h cp ha]
+  | .comb L k R, ha => by
+    simp only [Complex.nsAgree, Bool.and_eq_true] at ha
+    simp only [Complex.explicitNs, Complex.withImplied, complex_top L ha.1, compound_top h R ha.2]
+
+end
+
+/-- **CSS reading = what soupsieve implements**, for both readings of `:has`, when no default
+    namespace is declared or the pseudo-class arguments carry explicit type selectors where CSS
+    would imply one. -/
+theorem satCss_eq_satTop (h : Bool) (c : Ctx) (x : Complex)
+    (hyp : c.nsGet [] = none ∨ x.nsAgree h = true) (l : Loc) :
+    satCss h c l x = satTop c l x := by
+  unfold satCss satTop
+  rcases hyp with hns | ha
+  · rw [complex_ns h c hns x true l, withImplied_ns c hns x l]
+  · rw [complex_top h x ha]
+
+/-- `select` against the CSS meaning. -/
+theorem select_exact_css (h : Bool) (c : Ctx) (hifr : c.iframeRestrict = false)
+    (L : List Complex) (hns : c.nsGet [] = none ∨ ∀ x ∈ L, x.nsAgree h = true)
+    (hwf : ∀ x ∈ L, x.wf = true)
     (hfold : (∀ x ∈ L, x.caseSensitiveIn c = true) ∨ c.env.fold = lowerCp)
     (tag : Loc) (hroot : (∀ x ∈ L, x.noRoot = true) ∨ SatRoot.RootAgrees c tag.top)
     (limit : Int) (hlim : limit < 1) :
     selectIn c (compileList L) tag limit =
-      (descendantElems tag).filter (fun l => !l.isDoc && L.any (satCss c l)) := by
+      (descendantElems tag).filter (fun l => !l.isDoc && L.any (satCss h c l)) := by
   rw [C01Sat.select_exact c hifr L hwf hfold tag hroot limit hlim]
   unfold selectSpec
   congr 1
   funext l
-  congr 2
-  funext x
-  exact (satCss_eq_satTop c hns x l).symm
+  congr 1
+  apply SatCore.any_congr_mem
+  intro x hx
+  exact (satCss_eq_satTop h c x (hns.elim Or.inl (fun ha => Or.inr (ha x hx))) l).symm
 
-/-! ### With a default namespace they differ: `.a > .b` -/
+/-! ### With a default namespace -/
 
 namespace Example
 open C01Sat.Examples
@@ -168,16 +254,43 @@ def tree : Node :=
 def top : Loc := ⟨tree, []⟩
 def ctx : Ctx := mkCtx E0 true [([], "u".toStr)] top
 
-/-- `.a > .b` -/
-def x : Complex := .comb (.one (.mk none [.cls "a".toStr])) .child (.mk none [.cls "b".toStr])
+def cssSelect (h : Bool) (L : List Complex) : List (List Nat) :=
+  ((descendantElems top).filter (fun l => !l.isDoc && L.any (satCss h ctx l))).map Loc.pos
 
 example : ctx.nsGet [] = some "u".toStr := by decide
--- soupsieve (model and specification of what it implements): `y` is selected …
-example : (selectIn ctx (compileList [x]) top 0).map Loc.pos = [[0, 0, 0]] := by decide
-example : (selectSpec ctx [x] top).map Loc.pos = [[0, 0, 0]] := by decide
--- … CSS: `.a` is `*.a` in the default namespace `u`, `x` is in `v`: nothing is selected.
-example : ((descendantElems top).filter (fun l => !l.isDoc && [x].any (satCss ctx l))).map Loc.pos = [] := by
-  decide
+
+/-- `.a > .b` — the former counter-example: `.a` is `*.a` in the default namespace `u`, `x` is in
+    `v`, nothing is selected; the matcher now agrees. -/
+def x : Complex := .comb (.one (.mk none [.cls "a".toStr])) .child (.mk none [.cls "b".toStr])
+example : x.nsAgree false = true ∧ x.nsAgree true = true := by decide
+example : (selectIn ctx (compileList [x]) top 0).map Loc.pos = [] := by decide
+example : (selectSpec ctx [x] top).map Loc.pos = [] := by decide
+example : cssSelect false [x] = [] ∧ cssSelect true [x] = [] := by decide
+example (l : Loc) : satCss false ctx l x = satTop ctx l x :=
+  satCss_eq_satTop false ctx x (Or.inr (by decide)) l
+
+/-- `:is(.a > .b)` — what remains: the non-subject compound `.a` of a pseudo-class argument gets no
+    implied `*` from the parser; CSS restricts it to the default namespace. -/
+def y : Complex :=
+  .one (.mk none [.is [.comb (.one (.mk none [.cls "a".toStr])) .child (.mk none [.cls "b".toStr])]])
+example : y.nsAgree false = false ∧ y.nsAgree true = false := by decide
+example : (selectIn ctx (compileList [y]) top 0).map Loc.pos = [[0, 0, 0]] := by decide
+example : (selectSpec ctx [y] top).map Loc.pos = [[0, 0, 0]] := by decide
+example : cssSelect false [y] = [] ∧ cssSelect true [y] = [] := by decide
+/-- … and writing the universal selector explicitly restores agreement: `:is(*.a > .b)`. -/
+def y' : Complex :=
+  .one (.mk none [.is [.comb (.one (.mk (some ⟨.default, none⟩) [.cls "a".toStr])) .child
+    (.mk none [.cls "b".toStr])]])
+example : y'.nsAgree false = true := by decide
+example : (selectIn ctx (compileList [y']) top 0).map Loc.pos = [] := by decide
+example : cssSelect false [y'] = [] := by decide
+
+/-- `r:has(> .a)` — differs only under the reading in which `:has()` arguments have no exemption. -/
+def z : Complex :=
+  .one (.mk (some ⟨.default, some "r".toStr⟩) [.has [.mk .child (.one (.mk none [.cls "a".toStr]))]])
+example : z.nsAgree false = false ∧ z.nsAgree true = true := by decide
+example : (selectIn ctx (compileList [z]) top 0).map Loc.pos = [[0]] := by decide
+example : cssSelect false [z] = [] ∧ cssSelect true [z] = [[0]] := by decide
 
 end Example
 
